@@ -83,8 +83,28 @@ def big_sequence(rng):
     return seq, [1]
 
 
+READERS = []       # Sequence objects that have read (signed or unsigned) files earlier in this run
+
+
+def reader(ctx, rng, big=False):
+    """(object that will read the next file, fresh?): 40% of the reads go into an object that has read another file
+    before (and so may carry another file's hash), the rest into a fresh Sequence"""
+    import pypulseq as pp
+    if READERS and not big and rng.random() < 0.4:
+        ctx.count('reader.used')
+        return rng.choice(READERS), False
+    ctx.count('reader.fresh')
+    s = pp.Sequence()
+    if not big:
+        READERS.append(s)
+        del READERS[:-6]
+    return s, True
+
+
 def one_case(ctx, rng, n, big=False):
     import pypulseq as pp
+    if n == 0:
+        del READERS[:]
     if big:
         seq, stored = big_sequence(rng)
     else:
@@ -116,8 +136,12 @@ def one_case(ctx, rng, n, big=False):
         fn = os.path.join(d, want)
         ctx.count('name.' + ('with_suffix' if name.endswith('.seq') else 'without_suffix'))
         data = open(fn, 'rb').read()
-        s2 = pp.Sequence()
+        s2, fresh = reader(ctx, rng, big)
         s2.read(fn)
+        if not fresh and not sigflag:
+            # the statement says nothing about what an object that already carries a signature holds after reading an
+            # UNSIGNED file (the implementation keeps the old value): only the file and the return value are checked
+            s2 = None
         ctx.evaluated(hashlib.sha1(data).hexdigest(), nontrivial=sigflag)
         ctx.count('signed' if sigflag else 'unsigned')
         ctx.count('dedup' if dedup else 'nodedup')
@@ -129,7 +153,7 @@ def one_case(ctx, rng, n, big=False):
         # history: the same object (which now carries, or does not carry, a signature) and the object that read the file
         # are written again with fresh flags; every one of these writes must satisfy the same statement
         for k, (who, sf, dd) in enumerate(follow):
-            obj = seq if who == 'same' else s2
+            obj = seq if who == 'same' or s2 is None else s2
             fn2 = os.path.join(d, 'f%d.seq' % k)
             try:
                 ret2 = obj.write(fn2, create_signature=sf, remove_duplicates=dd)
@@ -137,8 +161,10 @@ def one_case(ctx, rng, n, big=False):
                 ctx.count('skipped.write_assertion')
                 continue
             data2 = open(fn2, 'rb').read()
-            s3 = pp.Sequence()
+            s3, fresh3 = reader(ctx, rng)
             s3.read(fn2)
+            if not fresh3 and not sf:
+                s3 = None
             ctx.count('follow_up.%s.%s_after_%s' % (who, 'signed' if sf else 'unsigned', 'signed' if sigflag else 'unsigned'))
             ctx.evaluated(('follow', n, k, hashlib.sha1(data2).hexdigest()), nontrivial=True)
             c2 = dict(case, failing_write={'index': k, 'object': who, 'create_signature': sf, 'remove_duplicates': dd})
